@@ -206,3 +206,14 @@ Example C03_excluded_class_is_real :
   ref_parse [42; 46; 91; 97; 93; 46; 98] = Ok (erase C03_tree_excluded) /\
   parse [42; 46; 91; 97; 93; 46; 98] <> Ok (erase C03_tree_excluded).
 Proof. vm_compute. repeat split; discriminate. Qed.
+
+(** A recorded deviation at the lexical level (known finding [minus-zero-numeral]): the grammar's
+    [number = ["-"] 1*digit] admits [-0] and [-01], so [a[-0]] is a sentence (it selects like [a[0]]);
+    the lexer — and with it both parsers, which share it — refuses a minus sign that is not followed
+    by 1-9, while the same numerals without the sign are accepted. *)
+Example C03_minus_zero_numeral_refused :
+  match parse [97; 91; 45; 48; 93], ref_parse [97; 91; 45; 48; 93], parse [97; 91; 48; 93], parse [97; 91; 45; 48; 49; 93], parse [97; 91; 48; 49; 93] with
+  | Err _, Err _, Ok _, Err _, Ok _ => True
+  | _, _, _, _, _ => False
+  end.
+Proof. vm_compute. exact I. Qed.
